@@ -216,6 +216,10 @@ func c01Run(c *core.Ctx, i int) {
 		runGenProgram(c, operandOrderProgram(r), nil, true, false)
 		return
 	}
+	if i%40 == 29 { // unary operators on calls / elements whose value lives in a global, element or entry
+		runTextFamily(c, "unary-on-stored-values", unaryOnCallSource(r), nil)
+		return
+	}
 	if i%40 == 39 { // deep equality of any values with different dynamic types
 		c.Cover("family", "any-equality")
 		runGenProgram(c, anyEqProgram(r), nil, true, false)
